@@ -303,6 +303,8 @@ class ModelFS:
     # ---- os-level operations -------------------------------------------------------
     @_ut
     def os_open(self, path, flags):
+        if '\0' in path:
+            raise ValueError('embedded null byte')      # what the real os.open does
         self._tick('open', path)
         node = self.lookup(path)
         if node is None:
@@ -320,6 +322,8 @@ class ModelFS:
 
     @_ut
     def os_stat(self, path):
+        if '\0' in path:
+            raise ValueError('embedded null byte')
         self._tick('stat', path)
         node = self.lookup(path)
         if node is None:
@@ -529,8 +533,15 @@ def _m_hash_file(fobj, hashes, _apparent_size=0):
     for h in hashes:
         if h == '__size__':
             ret[h] = node.size
-        else:
+        elif h in HASH_PREFIX:
             ret[h] = sym.cat(HASH_PREFIX[h], node.digest)
+        else:
+            # as gemato.hash.get_hash_by_name: known to this Python's hashlib or unsupported
+            import hashlib
+            from gemato.exceptions import UnsupportedHash
+            if h not in hashlib.algorithms_available:
+                raise UnsupportedHash(h)
+            ret[h] = sym.cat(h[:4] + ':', node.digest)
     return ret
 
 
